@@ -10,7 +10,7 @@
           neither from tail nor from any clearer), and is counted once over all clears.        *)
 From Coq Require Import List NArith Bool Arith Lia.
 Import ListNotations.
-Require Import MV.Common.Interleave MV.C05.Model MV.C05.ProofsSeq MV.C05.ProofsInv.
+Require Import MV.Common.Interleave MV.C05.Model MV.C05.ProofsSeq MV.C05.ProofsInv MV.C05.ProofsCor.
 Local Open Scope nat_scope.
 
 Definition vid (x : val) : N * N := fst x.
@@ -336,5 +336,352 @@ Section Uniq.
       + cbn in Rx. eapply Ha; [exact E2|exact Ry|]. rewrite Ht. exact Rx.
       + cbn in Ry. eapply Ha; [exact E1|exact Rx|]. rewrite Ht. exact Ry.
       + eapply (Hb u v x y d); eauto.
+  Qed.
+
+  Lemma bnxt_setb h b k' : b < length h -> bnxt k' = bnxt (getb h b) -> forall c, bnxt (getb (setb h b k') c) = bnxt (getb h c).
+  Proof.
+    intros Hb E c. rewrite getb_setb by exact Hb. destruct (Nat.eqb c b) eqn:E1; [|reflexivity].
+    apply Nat.eqb_eq in E1. subst. exact E.
+  Qed.
+
+  Lemma Q4_step : step_preserves step (fun c => Inv B c /\ Q4 c).
+  Proof.
+    intros s ls t l s' l' (HI & H4) Hl Hst.
+    split; [eapply (inv_step B HB fxc); eauto|].
+    pose proof HI as (HO & HC & HP). cbn [fst snd] in *.
+    pose proof (HP t l Hl) as Hpl. unfold pc_ok in Hpl.
+    step_inv Hst Epc;
+      try (eapply Q4_local; [exact H4|exact Hl
+             |first [reflexivity | cbn [heap with_heap]; apply bnxt_setb; [tauto|reflexivity]]
+             |reflexivity
+             |intros d R; unfold finish in R;
+              first [ rewrite root_enter in R; destruct (Reach_None _ _ R)
+                    | unfold root in *; rewrite Epc; cbn [goto mk pcl] in *;
+                      try destruct clr; cbn [goto mk pcl] in *;
+                      first [destruct (Reach_None _ _ R) | exact R | apply r_next; exact R
+                            | match goal with E : bnxt _ = Some _ |- _ => rewrite E; exact R end] ]]; fail).
+    - (* 511 *)
+      rewrite <- Et. apply Q4_alloc; auto. unfold root. rewrite Epc. reflexivity.
+    - (* 512 success *)
+      match goal with E : Nat.eqb _ _ = true |- _ => apply Nat.eqb_eq in E; subst end.
+      rewrite <- Et. apply Q4_alloc; auto. unfold root. rewrite Epc. reflexivity.
+    - contradiction.
+    - (* 541 success *)
+      match goal with E : Nat.eqb _ _ = true |- _ => apply Nat.eqb_eq in E; subst end.
+      apply Q4_detach; auto. unfold root. rewrite Epc. reflexivity.
+  Qed.
+
+  (* ---- Q5: what has been handed to clears *)
+  Definition Owned (c : @config shared local) (d : nat) : Prop :=
+    Reach (heap (fst c)) (tail (fst c)) d \/
+    exists u l, nth_error (snd c) u = Some l /\ Reach (heap (fst c)) (root (heap (fst c)) l) d.
+
+  (* the owned region never grows, except by the freshly allocated block *)
+  Lemma Owned_local s ls t l s' l' d :
+    nth_error ls t = Some l ->
+    (forall c, bnxt (getb (heap s') c) = bnxt (getb (heap s) c)) -> tail s' = tail s ->
+    (forall d, Reach (heap s) (root (heap s) l') d -> Reach (heap s) (root (heap s) l) d) ->
+    Owned (s', upd ls t l') d -> Owned (s, ls) d.
+  Proof.
+    intros Hl Hn Ht Hr [R|(u & x & Hx & R)]; cbn [fst snd] in *.
+    - left. cbn [fst]. rewrite Ht in R. eapply Reach_frame; [|exact R]. intros; symmetry; apply Hn.
+    - right. rewrite (root_frame _ _ x Hn) in R. apply (Reach_frame _ (heap s)) in R; [|intros; symmetry; apply Hn].
+      destruct (nth_error_upd_cases _ _ _ _ _ Hx) as [[-> ->]|[Hne E]]; cbn [fst snd].
+      + exists t, l. split; auto.
+      + exists u, x. split; auto.
+  Qed.
+
+  Lemma Owned_alloc s ls t l p d :
+    Inv B (s, ls) -> nth_error ls t = Some l -> (forall h, root h (goto l p) = None) ->
+    Owned ({| heap := heap s ++ [newb B (tail s)]; tail := Some (length (heap s)); late := late s |}, upd ls t (goto l p)) d ->
+    Owned (s, ls) d \/ d = length (heap s).
+  Proof.
+    intros (HO & _ & HP) Hl Hr' [R|(u & x & Hx & R)]; cbn [fst snd heap tail] in *.
+    - pose proof (links_of_heap_ok s HO) as HL.
+      inversion R; subst; [right; reflexivity|left; left]. cbn [fst].
+      rewrite getb_app_new in H0. cbn [newb bnxt] in H0. apply Reach_app_2 in H0; auto.
+      intros r E. apply (proj1 (proj2 (proj2 HO)) r E).
+    - left. right. pose proof (links_of_heap_ok s HO) as HL.
+      destruct (nth_error_upd_cases _ _ _ _ _ Hx) as [[-> ->]|[Hne E]]; [rewrite Hr' in R; destruct (Reach_None _ _ R)|].
+      rewrite (root_app _ _ x (HP u x E)) in R. apply Reach_app_2 in R; auto.
+      + exists u, x. cbn [fst snd]. auto.
+      + intros r Er. eapply root_lt; eauto.
+  Qed.
+
+  Lemma Owned_detach s ls t l b d :
+    nth_error ls t = Some l -> tail s = Some b ->
+    Owned ({| heap := heap s; tail := None; late := late s |}, upd ls t (goto l (W1 true b []))) d -> Owned (s, ls) d.
+  Proof.
+    intros Hl Ht [R|(u & x & Hx & R)]; cbn [fst snd heap tail] in *; [destruct (Reach_None _ _ R)|].
+    destruct (nth_error_upd_cases _ _ _ _ _ Hx) as [[-> ->]|[Hne E]].
+    - left. cbn [fst]. rewrite Ht. exact R.
+    - right. exists u, x. cbn [fst snd]. auto.
+  Qed.
+
+  Lemma Owned_step s ls t l s' l' d :
+    Inv B (s, ls) -> nth_error ls t = Some l -> step s l = Some (s', l') ->
+    Owned (s', upd ls t l') d -> Owned (s, ls) d \/ d = length (heap s).
+  Proof.
+    intros HI Hl Hst HOw. pose proof HI as (HO & HC & HP). cbn [fst snd] in *.
+    pose proof (HP t l Hl) as Hpl. unfold pc_ok in Hpl.
+    step_inv Hst Epc;
+      try (left; refine (Owned_local _ _ _ _ _ _ _ Hl _ _ _ HOw);
+             [first [reflexivity | cbn [heap with_heap]; apply bnxt_setb; [tauto|reflexivity]]
+             |reflexivity
+             |intros d0 R; unfold finish in R;
+              first [ rewrite root_enter in R; destruct (Reach_None _ _ R)
+                    | unfold root in *; rewrite Epc; cbn [goto mk pcl] in *;
+                      try destruct clr; cbn [goto mk pcl] in *;
+                      first [destruct (Reach_None _ _ R) | exact R | apply r_next; exact R
+                            | match goal with E : bnxt _ = Some _ |- _ => rewrite E; exact R end] ]]; fail).
+    - rewrite <- Et in HOw. eapply Owned_alloc; eauto. reflexivity.
+    - match goal with E : Nat.eqb _ _ = true |- _ => apply Nat.eqb_eq in E; subst end.
+      rewrite <- Et in HOw. eapply Owned_alloc; eauto. reflexivity.
+    - contradiction.
+    - match goal with E : Nat.eqb _ _ = true |- _ => apply Nat.eqb_eq in E; subst end.
+      left. eapply Owned_detach; eauto.
+  Qed.
+
+  (* slots only ever gain values *)
+  Lemma slot_mono s ls t l s' l' b i x :
+    Inv B (s, ls) -> nth_error ls t = Some l -> step s l = Some (s', l') ->
+    slot (heap s) b i = Some x -> slot (heap s') b i = Some x.
+  Proof.
+    intros HI Hl Hst Hx. pose proof HI as (HO & HC & HP). cbn [fst snd] in *.
+    pose proof (HP t l Hl) as Hpl. unfold pc_ok in Hpl.
+    step_inv Hst Epc; cbn [heap with_heap]; try exact Hx;
+      try (first [rewrite slot_app | rewrite slot_setb_same by (try tauto; reflexivity)]; exact Hx).
+    (* 502 *)
+    destruct Hpl as (Hb & Hi & Hnone). unfold slot in *. rewrite getb_setb by exact Hb.
+    destruct (Nat.eqb b b0) eqn:E1; [|exact Hx]. apply Nat.eqb_eq in E1. subst b0. cbn [bslot].
+    destruct (Nat.eq_dec i i0) as [->|Hne]; [congruence|]. rewrite nth_set_nth_other by auto. exact Hx.
+  Qed.
+
+  Definition NN_dec : forall a b : N * N, {a = b} + {a <> b}.
+  Proof. decide equality; apply N.eq_dec. Defined.
+
+  Definition res_cleared (r : res) : list val := match r with RClear sl => concat sl | _ => [] end.
+  Definition acc_cleared (p : pc) : list val :=
+    match p with
+    | W1 true _ a | W2 true _ _ a | WS true _ a | WD true _ a | WN true _ a => concat a
+    | _ => []
+    end.
+  (* everything handed to this thread's clear_with callbacks so far (call in progress first) *)
+  Definition cleared_local (l : local) : list val := acc_cleared (pcl l) ++ flat_map res_cleared (results l).
+  Definition cntl (id : N * N) (xs : list val) : nat := count_occ NN_dec (map vid xs) id.
+  Definition cnt (id : N * N) (l : local) : nat := cntl id (cleared_local l).
+
+  Lemma cntl_app id xs ys : cntl id (xs ++ ys) = cntl id xs + cntl id ys.
+  Proof. unfold cntl. rewrite map_app. apply count_occ_app. Qed.
+
+  Lemma cntl_concat_rev id acc : cntl id (concat (rev acc)) = cntl id (concat acc).
+  Proof.
+    induction acc as [|a r IH]; cbn [rev concat]; auto.
+    rewrite concat_app, !cntl_app, IH. cbn [concat]. rewrite app_nil_r. lia.
+  Qed.
+
+  Lemma in_concat_rev (x : val) acc : In x (concat (rev acc)) -> In x (concat acc).
+  Proof. rewrite !in_concat. intros (y & Hy & Hx). exists y. split; auto. apply in_rev. exact Hy. Qed.
+
+  Lemma cleared_enter m k td rs : cleared_local (enter m k td rs) = flat_map res_cleared rs.
+  Proof. destruct td as [|[]]; reflexivity. Qed.
+
+  Definition cl_same (l l' : local) : Prop :=
+    (forall id, cnt id l' = cnt id l) /\ (forall x, In x (cleared_local l') -> In x (cleared_local l)).
+
+  Lemma step_cleared s l s' l' :
+    step s l = Some (s', l') -> (forall b acc, pcl l <> WD true b acc) -> cl_same l l'.
+  Proof.
+    intros Hst Hnot. unfold cl_same, cnt.
+    step_inv Hst Epc; unfold finish; rewrite ?cleared_enter; unfold cleared_local; rewrite ?Epc;
+      cbn [goto mk pcl results acc_cleared flat_map res_cleared walk_res app];
+      try (split; intros; auto; fail);
+      try (destruct clr; cbn [acc_cleared flat_map res_cleared walk_res app concat]; try (split; intros; auto; fail)).
+    - (* WD true is excluded *) exfalso. eapply Hnot; eauto.
+    - (* 543, end of the chain: the slices move into the results *)
+      split.
+      + intros id. rewrite !cntl_app, cntl_concat_rev. reflexivity.
+      + intros x Hx. apply in_app_or in Hx. apply in_or_app. destruct Hx as [Hx|Hx]; [left; apply in_concat_rev; exact Hx|right; exact Hx].
+  Qed.
+
+  Definition Q5 (c : @config shared local) : Prop :=
+    (forall id, sumf (cnt id) (snd c) <= 1) /\
+    (forall u l x, nth_error (snd c) u = Some l -> In x (cleared_local l) ->
+                   exists b i, slot (heap (fst c)) b i = Some x /\ ~ Owned c b).
+
+  Definition All (c : @config shared local) : Prop := Inv B c /\ Q1 c /\ Q2 c /\ Q3 c /\ Q4 c /\ Q5 c.
+
+  Lemma slot_lt h b i x : slot h b i = Some x -> b < length h.
+  Proof. intros E. destruct (Nat.lt_ge_cases b (length h)); auto. rewrite slot_out in E by auto. discriminate. Qed.
+
+  (* any step that is not the delivering read of a clear *)
+  Lemma Q5_frame s ls t l s' l' :
+    Inv B (s, ls) -> Q5 (s, ls) -> nth_error ls t = Some l -> step s l = Some (s', l') ->
+    (forall b acc, pcl l <> WD true b acc) -> Q5 (s', upd ls t l').
+  Proof.
+    intros HI [Ha Hb] Hl Hst Hnot. destruct (step_cleared s l s' l' Hst Hnot) as [Hc Hin]. cbn [fst snd] in *.
+    split; cbn [fst snd].
+    - intros id. pose proof (sumf_upd (cnt id) ls t l l' Hl) as Hs. rewrite (Hc id) in Hs. specialize (Ha id). lia.
+    - intros u y x Hy Hx.
+      assert (Hold : exists u0 y0, nth_error ls u0 = Some y0 /\ In x (cleared_local y0)).
+      { destruct (nth_error_upd_cases _ _ _ _ _ Hy) as [[-> ->]|[Hne E]]; [exists t, l|exists u, y]; auto. }
+      destruct Hold as (u0 & y0 & Hy0 & Hx0). destruct (Hb u0 y0 x Hy0 Hx0) as (b & i & Hs & Hno).
+      exists b, i. split; [exact (slot_mono s ls t l s' l' b i x HI Hl Hst Hs)|].
+      intros HOw. destruct (Owned_step s ls t l s' l' b HI Hl Hst HOw) as [H|H]; [auto|].
+      apply slot_lt in Hs. lia.
+  Qed.
+
+  Lemma data_nth (sl : list (option val)) n j :
+    j < n -> n <= length sl -> nth j (map slot_val (firstn n sl)) garbage = slot_val (nth j sl None).
+  Proof.
+    revert n j. induction sl as [|o r IH]; intros n j Hj Hn; [cbn in Hn; lia|].
+    destruct n; [lia|]. destruct j; cbn; auto. apply IH; cbn in Hn; lia.
+  Qed.
+
+  Lemma sumf_pos {A} (f : A -> nat) ls : 0 < sumf f ls -> exists u x, nth_error ls u = Some x /\ 0 < f x.
+  Proof.
+    induction ls as [|y r IH]; cbn; [lia|]. intros H. destruct (f y) eqn:E.
+    - destruct (IH H) as (u & x & Hx & Hp). exists (S u), x. auto.
+    - exists 0, y. split; [reflexivity|lia].
+  Qed.
+
+  (* 506 of a clear: the block's published prefix is handed out *)
+  Lemma Q5_deliver s ls t l b acc :
+    All (s, ls) -> nth_error ls t = Some l -> pcl l = WD true b acc ->
+    Q5 (s, upd ls t (goto l (WN true b (data_of (getb (heap s) b) (tones (bdone (getb (heap s) b))) :: acc)))).
+  Proof.
+    intros (HI & H1 & H2 & H3 & [H4a H4b] & [H5a H5b]) Hl Hpc. cbn [fst snd] in *.
+    pose proof HI as (HO & HC & HP). cbn [fst snd] in *.
+    pose proof (HP t l Hl) as Hb. unfold pc_ok in Hb. rewrite Hpc in Hb.
+    pose proof (links_of_heap_ok s HO) as HL.
+    set (k := getb (heap s) b) in *. set (n := tones (bdone k)). set (data := data_of k n).
+    set (l' := goto l (WN true b (data :: acc))).
+    assert (Hroot : root (heap s) l = Some b) by (unfold root; rewrite Hpc; reflexivity).
+    assert (Hroot' : root (heap s) l' = bnxt k) by reflexivity.
+    assert (Hcl : cleared_local l' = data ++ cleared_local l).
+    { unfold cleared_local, l'. rewrite Hpc. cbn [goto mk pcl results acc_cleared concat]. rewrite app_assoc. reflexivity. }
+    destruct (proj1 HO b Hb) as [Ld Ls]. fold k in Ld, Ls.
+    assert (Hn : n <= length (bslot k)).
+    { rewrite Ls, <- Ld. unfold n. clear. induction (bdone k) as [|[] r IH]; cbn; lia. }
+    assert (Hslots : forall j, j < n -> exists x, slot (heap s) b j = Some x /\ nth j data garbage = x).
+    { intros j Hj. destruct (published_written B (s, ls) b j HI Hb (tones_nth B HB _ _ Hj)) as [x Hx]. cbn [fst] in Hx. fold k in Hx.
+      exists x. split; [exact Hx|]. unfold data, data_of. rewrite data_nth by auto. rewrite Hx. reflexivity. }
+    assert (Hlen : length data = n).
+    { unfold data, data_of. rewrite map_length, firstn_length. lia. }
+    assert (Hin : forall x, In x data -> exists j, slot (heap s) b j = Some x).
+    { intros x Hx. destruct (In_nth _ _ garbage Hx) as (j & Hj & Ej). rewrite Hlen in Hj.
+      destruct (Hslots j Hj) as (x' & Hs & En). exists j. congruence. }
+    assert (Hnd : forall id, cntl id data <= 1).
+    { apply NoDup_count_occ. apply (NoDup_nth _ (vid garbage)). rewrite map_length, Hlen. intros j1 j2 Hj1 Hj2 E.
+      rewrite !(map_nth vid) in E.
+      destruct (Hslots j1 Hj1) as (x1 & Hs1 & E1). destruct (Hslots j2 Hj2) as (x2 & Hs2 & E2). rewrite E1, E2 in E.
+      destruct (H3 b j1 b j2 x1 x2 Hs1 Hs2 E). auto. }
+    assert (HownB : Owned (s, ls) b).
+    { right. exists t, l. cbn [fst snd]. split; auto. rewrite Hroot. constructor. }
+    assert (Hfresh : forall id, 0 < cntl id data -> sumf (cnt id) ls = 0).
+    { intros id Hpos. destruct (Nat.eq_dec (sumf (cnt id) ls) 0) as [|Hne]; auto. exfalso.
+      apply count_occ_In in Hpos. apply in_map_iff in Hpos. destruct Hpos as (x & Ex & Hx).
+      destruct (Hin x Hx) as (j & Hs).
+      destruct (sumf_pos (cnt id) ls ltac:(lia)) as (u & y & Hy & Hp).
+      unfold cnt, cntl in Hp. apply count_occ_In in Hp. apply in_map_iff in Hp. destruct Hp as (x' & Ex' & Hx').
+      destruct (H5b u y x' Hy Hx') as (b' & i' & Hs' & Hno). cbn [fst] in Hs'.
+      destruct (H3 b j b' i' x x' Hs Hs' ltac:(unfold vid in *; congruence)) as [<- _]. auto. }
+    split; cbn [fst snd].
+    - intros id. pose proof (sumf_upd (cnt id) ls t l l' Hl) as Hs.
+      assert (E : cnt id l' = cntl id data + cnt id l) by (unfold cnt; rewrite Hcl, cntl_app; reflexivity).
+      specialize (Hnd id). specialize (H5a id). destruct (cntl id data) eqn:Ec; [lia|].
+      rewrite (Hfresh id) in Hs by lia. pose proof (sumf_ge (cnt id) ls t l Hl). lia.
+    - intros u y x Hy Hx.
+      assert (Hstep : step s l = Some (s, l')).
+      { unfold Model.step. rewrite Hpc. reflexivity. }
+      assert (Hcase : In x data \/ exists u0 y0, nth_error ls u0 = Some y0 /\ In x (cleared_local y0)).
+      { destruct (nth_error_upd_cases _ _ _ _ _ Hy) as [[-> ->]|[Hne E]].
+        - rewrite Hcl in Hx. apply in_app_or in Hx. destruct Hx; [left; auto|right; exists t, l; auto].
+        - right. exists u, y. auto. }
+      destruct Hcase as [Hd|(u0 & y0 & Hy0 & Hx0)].
+      + destruct (Hin x Hd) as (j & Hs). exists b, j. split; [exact Hs|].
+        intros [R|(v & z & Hz & R)]; cbn [fst snd] in *.
+        * eapply (H4a t l b); eauto. rewrite Hroot. constructor.
+        * destruct (nth_error_upd_cases _ _ _ _ _ Hz) as [[-> ->]|[Hne E]].
+          -- rewrite Hroot' in R. destruct (bnxt k) as [r|] eqn:En; [|destruct (Reach_None _ _ R)].
+             pose proof (Reach_le _ HL _ _ R r eq_refl). specialize (HL b r En). lia.
+          -- eapply (H4b t v l z b); eauto. rewrite Hroot. constructor.
+      + destruct (H5b u0 y0 x Hy0 Hx0) as (b' & i' & Hs' & Hno). exists b', i'. split; [exact Hs'|].
+        intros HOw. destruct (Owned_step s ls t l s l' b' HI Hl Hstep HOw) as [H|H]; [auto|].
+        apply slot_lt in Hs'. cbn [fst] in Hs'. lia.
+  Qed.
+
+  Theorem All_step : step_preserves step All.
+  Proof.
+    intros s ls t l s' l' HA Hl Hst. pose proof HA as (HI & H1 & H2 & H3 & H4 & H5).
+    destruct (Q23_step s ls t l s' l' (conj HI (conj H1 (conj H2 H3))) Hl Hst) as (HI' & H1' & H2' & H3').
+    destruct (Q4_step s ls t l s' l' (conj HI H4) Hl Hst) as (_ & H4').
+    unfold All. repeat (split; [assumption|]).
+    destruct (pcl l) eqn:Epc;
+      try (eapply Q5_frame; eauto; intros b0 acc0 E; rewrite Epc in E; discriminate E).
+    destruct clr.
+    - unfold Model.step in Hst. rewrite Epc in Hst. inversion Hst; subst s' l'. apply Q5_deliver; auto.
+    - eapply Q5_frame; eauto. intros b0 acc0 E. rewrite Epc in E. discriminate E.
+  Qed.
+
+  Lemma init_pcl n ps u l : nth_error (init_locals n ps) u = Some l -> pcl l = Start /\ results l = [].
+  Proof.
+    revert n u. induction ps as [|p r IH]; intros n u H; destruct u; cbn in H; try discriminate.
+    - inversion H; subst. auto.
+    - eapply IH; eauto.
+  Qed.
+
+  Lemma All_init ps : All (init_config ps).
+  Proof.
+    unfold All. split; [exact (reachable_Inv B HB fxc ps [])|]. split; [apply Q1_init|].
+    unfold init_config, init_shared.
+    split; [intros b i x E; cbn in E; rewrite slot_out in E by (cbn; lia); discriminate|].
+    split; [intros b i b' i' x x' E; cbn in E; rewrite slot_out in E by (cbn; lia); discriminate|].
+    assert (R0 : forall u l, nth_error (init_locals 0 ps) u = Some l -> root [] l = None).
+    { intros u l Hl. destruct (init_pcl _ _ _ _ Hl) as [E _]. unfold root. rewrite E. reflexivity. }
+    assert (C0 : forall u l, nth_error (init_locals 0 ps) u = Some l -> cleared_local l = []).
+    { intros u l Hl. destruct (init_pcl _ _ _ _ Hl) as [E1 E2]. unfold cleared_local. rewrite E1, E2. reflexivity. }
+    split; [split; cbn [fst snd heap tail]|split; cbn [fst snd heap tail]].
+    - intros u l d Hl R. rewrite (R0 u l Hl) in R. destruct (Reach_None _ _ R).
+    - intros u v l l' d _ Hl _ R. rewrite (R0 u l Hl) in R. destruct (Reach_None _ _ R).
+    - intros id. assert (E : sumf (cnt id) (init_locals 0 ps) = 0); [|lia].
+      generalize (C0). generalize (init_locals 0 ps). intros ls H. induction ls as [|y r IH]; cbn; auto.
+      rewrite IH by (intros u l Hl; apply (H (S u) l Hl)). unfold cnt. rewrite (H 0 y eq_refl). reflexivity.
+    - intros u l x Hl Hx. rewrite (C0 u l Hl) in Hx. destruct Hx.
+  Qed.
+
+  Theorem reachable_All ps sched : All (fst (exec step site (init_config ps) sched)).
+  Proof. apply invariant_all_schedules; [exact All_step|apply All_init]. Qed.
+
+  (* ---- uniqueness of delivery *)
+  Lemma sumf_two {A} (f : A -> nat) ls : forall u v a b, u <> v -> nth_error ls u = Some a -> nth_error ls v = Some b ->
+    f a + f b <= sumf f ls.
+  Proof.
+    induction ls as [|y r IH]; intros [|u] [|v] a b Hne Ha Hb; cbn in *; try discriminate; try congruence.
+    - inversion Ha; subst. pose proof (sumf_ge f r v b Hb). lia.
+    - inversion Hb; subst. pose proof (sumf_ge f r u a Ha). lia.
+    - specialize (IH u v a b ltac:(lia) Ha Hb). lia.
+  Qed.
+
+  Lemma cnt_pos id l x : In x (cleared_local l) -> vid x = id -> 0 < cnt id l.
+  Proof. intros Hx E. unfold cnt, cntl. apply count_occ_In. apply in_map_iff. exists x. auto. Qed.
+
+  (* one clearing thread never receives the same identity twice (over all its clear_with calls,
+     including the one in progress) *)
+  Lemma cleared_nodup_thread c u l : All c -> nth_error (snd c) u = Some l -> NoDup (map vid (cleared_local l)).
+  Proof.
+    intros (_ & _ & _ & _ & _ & [H5 _]) Hl. apply (NoDup_count_occ NN_dec). intros id.
+    pose proof (sumf_ge (cnt id) (snd c) u l Hl). specialize (H5 id). unfold cnt, cntl in *. lia.
+  Qed.
+
+  (* two different threads never receive the same identity *)
+  Lemma cleared_disjoint_threads c u v l l' x x' :
+    All c -> u <> v -> nth_error (snd c) u = Some l -> nth_error (snd c) v = Some l' ->
+    In x (cleared_local l) -> In x' (cleared_local l') -> vid x = vid x' -> False.
+  Proof.
+    intros (_ & _ & _ & _ & _ & [H5 _]) Hne Hl Hl' Hx Hx' E.
+    pose proof (sumf_two (cnt (vid x)) (snd c) u v l l' Hne Hl Hl').
+    pose proof (cnt_pos (vid x) l x Hx eq_refl). pose proof (cnt_pos (vid x) l' x' Hx' (eq_sym E)).
+    specialize (H5 (vid x)). lia.
   Qed.
 End Uniq.
